@@ -48,7 +48,17 @@ ENTRIES = {
             "masks, missing counters, one count-function call per level); generated code is re-translated every run and "
             "executed against the Python it came from.",
             "norm.ppf enters as a parameter (table entry supplied by scipy).",
-            "Lean 4 proof over translated source + differential correspondence", "DESIGN.md §6 C07"),    'C16': ("Lean theorems: with saturated sampling / treatment / outcome models the IPSW weighted arm means (generated "
+            "Lean 4 proof over translated source + differential correspondence", "DESIGN.md §6 C07"),    'C12': ("Lean theorems over any ordered field, any number of time points / individuals / covariate arities / plans: the "
+            "backward recursion of IterativeCondGFormula with cell-fit outcome models equals the nonparametric g-formula "
+            "recursion (count form proved equal to the textbook h + (1-h) sum f G form), by induction over the remaining "
+            "time points; a plan given as n identical rows behaves exactly like the single row; K=1 equals the time-fixed "
+            "g-formula; SurvivalGFormula with arm x time cell-fit hazards equals 1 - prod(1 - d/n); any hazards in [0,1] give "
+            "cumulative incidences in [0,1], non-decreasing in time. Differential check keeps the recursion in Lean (the "
+            "harness only makes the reference GLM call per step), exact rational closed forms for gate D.",
+            "GLM fits assumed to solve their score equations (measured; rank-deficient designs discarded); stable sort and "
+            "patsy NaN handling are glue reached by the differential gates only.",
+            "Lean 4 proof (induction over time points, stratum regrouping) + differential correspondence", "DESIGN.md §6 C12"),
+    'C16': ("Lean theorems: with saturated sampling / treatment / outcome models the IPSW weighted arm means (generated "
             "IPSW/IOSW formulas x generated population treatment weights), the g-transport mean and the AIPSW combination "
             "equal the sample's cell means standardized to all rows (generalize) or to the non-sampled rows (transport), "
             "for any data set and stratum count; RD/RR are difference/ratio; outcomes recorded outside the sample cannot "
